@@ -169,7 +169,10 @@ impl Sim {
                 let mode = mode_abs(p["mode"].as_str().unwrap_or("must-create"));
                 let gen = p["generation"].as_i64().unwrap_or(-1);
                 let s = p["string"].as_str().unwrap_or("");
-                if key.len() == 4 && key[0] == "trampoline" && key[1] == "payments" && key[3] == "state" {
+                if hash == "?" {
+                    // a key that does not name a payment hash of the run the way the store is specified to name it
+                    json!({"kind":"ds","hash":"?","key":"other","a":0,"mode":mode,"gen":gen,"val":{"st":"other"}})
+                } else if key.len() == 4 && key[0] == "trampoline" && key[1] == "payments" && key[3] == "state" {
                     let val = self.abs_state(s);
                     json!({"kind":"ds","hash":hash,"key":"state","a":0,"mode":mode,"gen":gen,"val":val})
                 } else if key.len() == 5 && key[0] == "trampoline" && key[1] == "payments" && key[3] == "attempts" {
@@ -186,7 +189,7 @@ impl Sim {
                     .map(|a| a.iter().map(|x| x.as_str().unwrap_or("").to_string()).collect())
                     .unwrap_or_default();
                 let hash = key.get(2).map(|h| cat::hash_name_hex(h)).unwrap_or_default();
-                let k = if key.len() == 4 && key[3] == "state" { "state" } else { "other" };
+                let k = if key.len() == 4 && key[3] == "state" && hash != "?" { "state" } else { "other" };
                 json!({"kind":"listds","hash":hash,"key":k})
             }
             "listsendpays" => {
@@ -298,6 +301,9 @@ impl Sim {
             "amount_sent_msat": 1,
             "created_at": 1,
         });
+        if let Some(l) = self.part_label(idx) {
+            v["label"] = json!(l);
+        }
         if self.local_partid(idx) == 0 {
             // lightningd leaves the field out for part 0
             v.as_object_mut().unwrap().remove("partid");
@@ -492,6 +498,20 @@ impl Sim {
         let group = 1000 + (self.parts.len() as u64 % 2);
         self.parts.push(Part { hash: hash.to_string(), cmd: group, st: "pending", code: 0 });
         self.parts.len()
+    }
+
+    /// Label lightningd reports for a part: parts of a pay command of this run carry the label the command was given;
+    /// left-over parts carry none, the plugin's own kind of label, or somebody else's.
+    fn part_label(&self, idx: usize) -> Option<String> {
+        let g = self.parts[idx].cmd;
+        if g >= 1000 {
+            return match idx % 3 {
+                0 => None,
+                1 => Some(String::from("trampoline-left-over")),
+                _ => Some(String::from("manual-payment")),
+            };
+        }
+        self.calls.get(&g).and_then(|c| c.params["label"].as_str().map(|s| s.to_string()))
     }
 
     pub fn part_done(&mut self, part: usize, how: &str, code: i32) {
